@@ -147,6 +147,12 @@ func init() {
 				}
 			}
 			in.addAttr(out, "vx-verified", smt.StrLit("1"))
+			// goxmldsig re-parses the canonical signed bytes and returns the root of that fresh document
+			// (so the returned element has the document as its parent, not nil)
+			nd := in.P.Pkgs[etreePkg].Func("NewDocument")
+			doc := in.callFunction(nd, nil, nil).(*Ptr)
+			setRoot := in.etreeMethod(types.NewPointer(in.etreeType("Document")), "SetRoot")
+			in.callFunction(setRoot, []Value{doc, out}, nil)
 			return Tuple{out, nilError()}
 		}
 		in.end("internal", "bad vx-sig %q", sig)
